@@ -208,10 +208,18 @@ def run_correspondence(modname, tier, seed, extra_chunks=None):
         for res in pool.imap_unordered(_process_chunk, gen(), chunksize=1):
             for k in ("cases", "observations", "n_disagree", "n_viol", "model_errors", "t_impl", "nontrivial"):
                 total[k] += res[k]
-            for k in ("disagreements", "violations"):
-                room = 200 - len(total[k])
-                if room > 0:
-                    total[k].extend(res[k][:room])
+            room = 200 - len(total["disagreements"])
+            if room > 0:
+                total["disagreements"].extend(res["disagreements"][:room])
+            # violations attributed to a listed finding are sampled (200); the ones no finding
+            # accounts for must never be crowded out by them (they decide the verdict)
+            for v in res["violations"]:
+                if v.get("finding") is None:
+                    if total.setdefault("_n_unlisted", 0) < 200:
+                        total["_n_unlisted"] += 1
+                        total["violations"].append(v)
+                elif len(total["violations"]) < 200:
+                    total["violations"].append(v)
             for b, n in res["hist"].items():
                 total["hist"][b] = total["hist"].get(b, 0) + n
             seen.update(res["keys"])
